@@ -536,10 +536,22 @@ class Collection:
                 )
                 # Tack on collection name to alias list if this task is the
                 # collection's default.
-                if coll.default == task_name:
+                if coll.default == task_name or coll._default_task_name() == task_name:
                     aliases += (coll_name,)
                 ret[self.subtask_name(coll_name, task_name)] = aliases
         return ret
+
+    def _default_task_name(self) -> Optional[str]:
+        # Dotted name of the task our default resolves to (following default
+        # sub-collections), or None.
+        if not self.default:
+            return None
+        if self.default in self.collections:
+            inner = self.collections[self.default]._default_task_name()
+            if inner is None:
+                return None
+            return self.subtask_name(self.default, inner)
+        return self.default
 
     def configuration(self, taskpath: Optional[str] = None) -> Dict[str, Any]:
         """
